@@ -10,13 +10,6 @@ From GC Require Import Common.Base Model.Paths Model.Fs Model.Views Model.ViewsC
 Definition red_under (c : chain) (s : bytes) : option path :=
   if cache_next c then cred s else reduce s.
 
-Fixpoint cache_ok (c : chain) : Prop :=
-  match c with
-  | [] => True
-  | LCache :: c' => cache_next c' = false /\ cache_ok c'
-  | _ :: c' => cache_ok c'
-  end.
-
 Fixpoint cbase' (c : chain) : option path :=
   match c with
   | [] => Some []
@@ -47,33 +40,34 @@ Proof.
   - apply reduce_base_join; assumption.
 Qed.
 
-Theorem resolve_cres' nn c : cache_ok c -> bases_ok c -> forall s,
+Theorem resolve_cres' nn c : bases_ok c -> forall s,
   resolve nn c s = match red_under c s with Some r => cres' nn c r | None => None end.
 Proof.
-  induction c as [|l c IH]; intros Hc Hb s.
+  induction c as [|l c IH]; intros Hb s.
   - unfold resolve, red_under. simpl. destruct (reduce s); reflexivity.
   - rewrite resolve_cons. destruct l as [b|b| | |].
     + (* LWrap *)
-      destruct Hb as [Hbase Hb]. simpl in Hc. unfold transform1, red_under. simpl cache_next.
+      destruct Hb as [Hbase Hb]. unfold transform1, red_under. simpl cache_next.
       destruct nn.
       * rewrite reduce_node_as_reduce. destruct (reduce s) as [[|n r]|] eqn:Es; try reflexivity.
-        rewrite (IH Hc Hb).
+        rewrite (IH Hb).
         rewrite (red_under_base_join c b (n :: r) Hbase) by (eapply reduce_good; eauto).
         cbn [cres' andb]. destruct (red_under c b); reflexivity.
       * destruct (reduce s) as [r|] eqn:Es; [|reflexivity].
-        rewrite (IH Hc Hb). rewrite (red_under_base_join c b r Hbase) by (eapply reduce_good; eauto).
+        rewrite (IH Hb). rewrite (red_under_base_join c b r Hbase) by (eapply reduce_good; eauto).
         cbn [cres' andb]. destruct (red_under c b); reflexivity.
     + (* LSub *)
-      destruct Hb as [Hbase Hb]. simpl in Hc. unfold transform1, red_under. simpl cache_next.
+      destruct Hb as [Hbase Hb]. unfold transform1, red_under. simpl cache_next.
       destruct (reduce s) as [r|] eqn:Es; [|reflexivity].
-      rewrite (IH Hc Hb). rewrite (red_under_base_join c b r Hbase) by (eapply reduce_good; eauto).
+      rewrite (IH Hb). rewrite (red_under_base_join c b r Hbase) by (eapply reduce_good; eauto).
       cbn [cres']. destruct (red_under c b); reflexivity.
-    + simpl in Hc, Hb. unfold transform1. rewrite (IH Hc Hb). reflexivity.
-    + simpl in Hc, Hb. unfold transform1. rewrite (IH Hc Hb). reflexivity.
+    + simpl in Hb. unfold transform1. rewrite (IH Hb). reflexivity.
+    + simpl in Hb. unfold transform1. rewrite (IH Hb). reflexivity.
     + (* LCache: the layers below reduce what the cache cleaned *)
-      simpl in Hc, Hb. destruct Hc as [Hnext Hc]. unfold transform1. rewrite (IH Hc Hb).
-      unfold red_under at 1. rewrite Hnext. unfold red_under. simpl cache_next. unfold cred.
-      destruct (reduce (clean_path s)); reflexivity.
+      simpl in Hb. unfold transform1. rewrite (IH Hb).
+      assert (E : red_under c (clean_path s) = red_under (LCache :: c) s).
+      { unfold red_under. simpl cache_next. destruct (cache_next c); [apply cred_clean_path|reflexivity]. }
+      rewrite E. destruct (red_under (LCache :: c) s); reflexivity.
 Qed.
 
 Lemma cres'_false c : forall r,
@@ -98,9 +92,9 @@ Qed.
 Lemma red_under_nil c : red_under c [] = Some [].
 Proof. unfold red_under. destruct (cache_next c); reflexivity. Qed.
 
-Lemma root_of_cbase' c : cache_ok c -> bases_ok c -> root_of c = cbase' c.
+Lemma root_of_cbase' c : bases_ok c -> root_of c = cbase' c.
 Proof.
-  intros Hc Hb. unfold root_of. rewrite resolve_cres' by assumption.
+  intros Hb. unfold root_of. rewrite resolve_cres' by assumption.
   rewrite red_under_nil, cres'_false. destruct (cbase' c); [rewrite app_nil_r|]; reflexivity.
 Qed.
 
@@ -112,10 +106,10 @@ Proof. unfold red_under. destruct (cache_next c); [apply cred_good|apply reduce_
 
 (** C03 at path level, caches included. *)
 Theorem resolve_confined_cache nn c s p :
-  cache_ok c -> bases_ok c -> resolve nn c s = Some p ->
+  bases_ok c -> resolve nn c s = Some p ->
   exists b r, root_of c = Some b /\ red_under c s = Some r /\ good_path r = true /\ p = b ++ r.
 Proof.
-  intros Hc Hb H. rewrite resolve_cres' in H by assumption.
+  intros Hb H. rewrite resolve_cres' in H by assumption.
   destruct (red_under c s) as [r|] eqn:Es; [|discriminate].
   assert (Hf : cres' false c r = Some p).
   { destruct nn; [|exact H]. destruct (cres'_true c r) as [E|E]; congruence. }
@@ -125,34 +119,18 @@ Proof.
 Qed.
 
 (** * Stacks built by the API (with caches) satisfy the side conditions *)
-Lemma child_cache_ok c : forall p c', cache_ok c -> child c p = Some c' -> cache_ok c'.
+Lemma cbuild_ok ks : forall c c', bases_ok c -> cbuild c ks = Some c' -> bases_ok c'.
 Proof.
-  induction c as [|l c IH]; intros p c' Hc H; simpl in H.
-  - destruct (reduce p); inversion H; subst. exact I.
-  - destruct l as [b|b| | |].
-    + destruct (reduce p); [|discriminate]. destruct (reduce (b ++ join p0)); inversion H; subst. exact Hc.
-    + destruct (reduce p); inversion H; subst. exact Hc.
-    + destruct (reduce p); inversion H; subst. exact Hc.
-    + destruct (child c p) as [c''|] eqn:E; inversion H; subst. simpl in *. eapply IH; eauto.
-    + inversion H; subst. exact Hc.
-Qed.
-
-Lemma cbuild_ok ks : forall c c', cache_ok c -> bases_ok c -> cbuild c ks = Some c' ->
-  cache_ok c' /\ bases_ok c'.
-Proof.
-  induction ks as [|k ks IH]; intros c c' Hc Hb H; simpl in H.
-  - inversion H; subst. split; assumption.
+  induction ks as [|k ks IH]; intros c c' Hb H; simpl in H.
+  - inversion H; subst. assumption.
   - destruct k as [k|].
     + destruct k as [p|b| |]; simpl in H.
-      * destruct (child c p) as [c1|] eqn:E; [|discriminate]. eapply IH; [| |exact H].
-        -- eapply child_cache_ok; eauto.
-        -- eapply child_bases_ok; eauto.
-      * eapply IH; [| |exact H]; [exact Hc|]. simpl. split; [apply base_ok_snoc|exact Hb].
-      * eapply IH; [| |exact H]; assumption.
-      * eapply IH; [| |exact H]; assumption.
-    + destruct (cache_next c) eqn:En; [discriminate|]. eapply IH; [| |exact H].
-      * simpl. split; assumption.
-      * exact Hb.
+      * destruct (child c p) as [c1|] eqn:E; [|discriminate]. eapply IH; [|exact H].
+        eapply child_bases_ok; eauto.
+      * eapply IH; [|exact H]. simpl. split; [apply base_ok_snoc|exact Hb].
+      * eapply IH; [|exact H]; assumption.
+      * eapply IH; [|exact H]; assumption.
+    + eapply IH; [|exact H]. exact Hb.
 Qed.
 
 (** Every stack [cbuild] makes from the memfs root confines every argument. *)
@@ -160,7 +138,7 @@ Theorem cbuild_confined ks c nn s p :
   cbuild [] ks = Some c -> resolve nn c s = Some p ->
   exists b r, root_of c = Some b /\ good_path r = true /\ p = b ++ r.
 Proof.
-  intros Hk H. destruct (cbuild_ok ks [] c I I Hk) as [Hc Hb].
-  destruct (resolve_confined_cache nn c s p Hc Hb H) as (b & r & A & _ & B & C).
+  intros Hk H. pose proof (cbuild_ok ks [] c I Hk) as Hb.
+  destruct (resolve_confined_cache nn c s p Hb H) as (b & r & A & _ & B & C).
   exists b, r. auto.
 Qed.
